@@ -353,6 +353,8 @@ def slices(quick):
         ("life", dict(J1, NHJob=2, Ops="<- OpsLife", Vals="<- VOne", NVals="<- VOne", MapArgs="<- MapsSmall", Caps="<- CapsZero",
                       MaxLevel=5 if quick else 6), 0.08 if quick else 0.04),
     ]
+    s.append(("fp", dict(J1P, NHJob=1, NHProj=1, Ops='{"set", "read", "buffer"}', Vals="<- VHard2" if quick else "<- VHard4", NVals="<- VOne",
+                         MapArgs="<- MapsSmall", Caps="<- CapsNoneOnly", MaxNest=1, MaxLevel=5), 0.05))
     if not quick:
         s.append(("full", dict(ALL, NHJob=2, NHProj=2, Ops="<- OpsAll", Vals="<- VStruct", NVals="<- NVTypes", MapArgs="<- MapsSmall",
                                Caps="<- CapsTwo", MaxLevel=3), 0.03))
@@ -567,6 +569,12 @@ def run(ctx):
         for kind, v in zip(("as written", "unbuffered", "buffered"), (evs,) + variants(evs)[:2]):
             tr.append(({"script": nm, "kind": kind}, [dict(e, form=e.get("form", "")) for e in v]))
     summary["repo_scripts"] = judge_traces(ctx, validate_traces(ctx, "scripts", tr, flags, procs), "repository test script")
+    # edits inside a block whose serialised text is hard for weak fingerprints (the flush decides by a fingerprint whether to write)
+    tr = []
+    for n, (label, before, after) in enumerate(docutil.hard_pairs(rnd, 36 if ctx.quick else 120)):
+        for f in ("j1", "p"):
+            tr.append(({"hard_pair": label, "file": f, "before": before, "after": after}, docutil.hard_pair_ops(f, before, after, n % 2)))
+    summary["fingerprint_hard_edits"] = judge_traces(ctx, validate_traces(ctx, "hardpairs", tr, flags, procs), "fingerprint-hard buffered edit")
     ntr = 300 if ctx.quick else 4000
     tr = []
     for i in range(ntr):
